@@ -122,8 +122,11 @@ func vViews(doc *Document) string {
 
 // vWarmViews reads every view twice: NodesWithTag only stores a result on the second lookup.
 func vWarmViews(doc *Document) string {
-	vViews(doc)
-	return vViews(doc)
+	first := vViews(doc)
+	second := vViews(doc)
+	// reading is a read-only operation too: the second reading shows what the first one showed
+	VsAssert("reading-the-views-again-gives-the-same-views", first == second)
+	return second
 }
 
 var vC13Edits = []string{"AddNode", "DeleteNode", "SetNodes", "AddIndividual-new", "AddIndividual-clash", "AddFamily",
